@@ -707,6 +707,13 @@ func c08Instances(add func(*Instance), thorough bool) {
 							continue // xor/andNot build bitmaps from run chunks: only on array chunks here (C01 covers the kernels)
 						}
 						add(&Instance{Func: "VerifC08Buffer", Params: with(base, "steps", 1, "c0", 5, "bop", bop)})
+						for _, c1 := range []int{0, 1} {
+							tier := 0
+							if si == 0 {
+								tier = 1 // A(2)/R(1;L<=8) chunks through a union and a further mutation: thousands of paths
+							}
+							add(&Instance{Func: "VerifC08Buffer", Tier: tier, Params: with(base, "steps", 2, "c0", 5, "c1", c1, "bop", bop)})
+						}
 						add(&Instance{Func: "VerifC08Buffer", Params: with(base, "steps", 2, "c0", 1, "c1", 5, "bop", bop), Tier: 1})
 					}
 				}
